@@ -170,7 +170,7 @@ def run_stream(c, sweeps, tmp, tag):
         if "error" not in obs:
             pairs.append(model_pair(sw, obs, strat, split, eff_flat))
             metas.append((desc, obs, fails))
-    bad, _ = core.run_cases("Prelude Grid Perm Runner RunnerInst", pairs, chunk=150)
+    bad, _ = core.safe_run_cases(c, "Prelude Grid Perm Runner RunnerInst", pairs, chunk=150)
     for i in bad:
         desc, obs, fails = metas[i]
         if not fails:
